@@ -24,11 +24,13 @@ def sids(seed):
 
 def filters(s, s2):
     return [(s, 0xFFFF, 0xFF, 0xFFFFFFFF), (s, 1, 0xFF, 0xFFFFFFFF), (s, 1, 1, 0), (s2, 0xFFFF, 0xFF, 0xFFFFFFFF),
-            (s2, 2, 0xFF, 0xFFFFFFFF)]
+            (s2, 2, 0xFF, 0xFFFFFFFF),
+            # a wildcard in an earlier field and a concrete value in a later one
+            (s, 0xFFFF, 2, 0xFFFFFFFF)]
 
 
 def services(s, s2):
-    return [(s, 1, 1, 0), (s, 2, 1, 0), (s2, 2, 1, 0)]
+    return [(s, 1, 1, 0), (s, 2, 1, 0), (s2, 2, 1, 0), (s, 1, 2, 1)]
 
 
 def fmatch(f, svc):
@@ -172,6 +174,7 @@ def cfgs(ctx):
     out = []
     maxsub = 4 if ctx.thorough else 3
     subsets = [c for k in range(1, maxsub + 1) for c in itertools.combinations(range(5), k)]
+    subsets += [(5,), (0, 5), (1, 5), (2, 5), (0, 1, 5)]
     reps_set = (0, 1, 2, 3, 4) if ctx.thorough else (0, 1, 3)
     for (window, frac), reps, base, watched in itertools.product(
             (((0.0, 0.0), 0.0), ((0.125, 0.25), 0.0), ((0.125, 0.25), 1.0)), reps_set, (0.125, 1.0), subsets):
